@@ -25,6 +25,77 @@ pub static mut SI_N: usize = 0; // symbol_index calls
 pub static mut SI_LIMIT: usize = 0;
 pub static mut SI_RET: usize = 0;
 pub static mut FIXED_CHOICE: u8 = 0; // which single-letter keyword `fixed` accepts in this run
+pub static mut LIT_N: usize = 0; // lit() calls
+pub static mut LIT_RET: [usize; MAXREC] = [0; MAXREC];
+pub static mut LIT_LIMIT: [usize; MAXREC] = [0; MAXREC];
+pub static mut LIT_ASSIGN: [bool; MAXREC] = [false; MAXREC];
+pub static mut LIT_OK: usize = 0; // successful lit() calls
+pub static mut DC_N: usize = 0; // delta_code calls
+pub static mut DC_CODE: [usize; 2] = [0; 2];
+pub static mut DC_RET: [usize; 2] = [0; 2];
+pub static mut NLS_SPACE: bool = false; // last required_newline_or_space returned "space"
+pub static mut SPACES_OK: usize = 0;
+/// T3: the stubs read the ghost token queue filled by the real writer (flussab::verif_q)
+pub static mut SCRIPT: bool = false;
+
+fn script() -> bool {
+    unsafe { SCRIPT }
+}
+
+/// T3 entry: stubs on, script mode, queue already filled by the writer
+pub fn reset_script() {
+    reset(0);
+    unsafe {
+        SCRIPT = true;
+        AT_END = false;
+        IO_FAILED = false;
+    }
+    flussab::verif_q::stop_capture();
+}
+
+/// names/comments used by the round-trip harnesses (the stubs hand out `&'static str`)
+pub static NAMES: [&str; 3] = ["", "x", "a b"];
+
+fn q_text_until_newline(consume_rest: bool) -> Option<&'static str> {
+    // bytes up to the newline (which must be there); with consume_rest the text is everything up
+    // to the LAST newline, which must be the last token
+    use flussab::verif_q as q;
+    let mut k = 0;
+    while k < NAMES.len() {
+        let cand = NAMES[k].as_bytes();
+        let mut ok = true;
+        let mut i = 0;
+        while i < cand.len() {
+            match q::peek_at(i) {
+                Some(t) if t.kind == 0 && t.mag == cand[i] as u128 => {}
+                _ => ok = false,
+            }
+            i += 1;
+        }
+        if ok {
+            if let Some(t) = q::peek_at(cand.len()) {
+                if t.kind == 0 && t.mag == b'\n' as u128 && (!consume_rest || q::len() == cand.len() + 1) {
+                    let mut j = 0;
+                    while j <= cand.len() {
+                        q::pop();
+                        j += 1;
+                    }
+                    return Some(NAMES[k]);
+                }
+            }
+        }
+        k += 1;
+    }
+    None
+}
+
+fn s_limited(limit: usize) -> Result<usize, ParseError> {
+    // contract of uint::<usize> + limit check on the canonical decimal text of a number
+    match flussab::verif_q::take_num() {
+        Some((false, mag)) if mag <= usize::MAX as u128 && mag as usize <= limit => Ok(mag as usize),
+        _ => Err(any_err()),
+    }
+}
 
 pub fn on() -> bool {
     unsafe { ON }
@@ -41,6 +112,11 @@ pub fn reset(fuel: usize) {
         EOF_OK = 0;
         HF_N = 0;
         SI_N = 0;
+        LIT_N = 0;
+        LIT_OK = 0;
+        DC_N = 0;
+        SPACES_OK = 0;
+        SCRIPT = false;
         AT_END = kani::any();
         IO_FAILED = kani::any();
         FIXED_CHOICE = kani::any();
@@ -86,6 +162,9 @@ pub fn unexpected(_input: &mut LineReader, _expected: &str) -> ParseError {
 
 pub fn fixed(_input: &mut LineReader, fixed: &[u8]) -> Parsed<(), ParseError> {
     tick();
+    if script() {
+        return if flussab::verif_q::take_bytes(fixed) { Res(Ok(())) } else { Fallthrough };
+    }
     // at most one keyword can match at a given input position
     let matches = fixed.len() != 1 || unsafe { FIXED_CHOICE } == fixed[0];
     if matches && consume() {
@@ -96,12 +175,29 @@ pub fn fixed(_input: &mut LineReader, fixed: &[u8]) -> Parsed<(), ParseError> {
 }
 
 pub fn fixed_not_eol(input: &mut LineReader, f: &[u8]) -> Parsed<(), ParseError> {
+    if script() {
+        tick();
+        // matches only if the byte after the keyword is not a newline
+        use flussab::verif_q as q;
+        if let Some(t) = q::peek_at(f.len()) {
+            if t.kind == 0 && t.mag == b'\n' as u128 {
+                return Fallthrough;
+            }
+        }
+        return if q::take_bytes(f) { Res(Ok(())) } else { Fallthrough };
+    }
     fixed(input, f)
 }
 
 pub fn space(_input: &mut LineReader) -> Parsed<(), ParseError> {
     tick();
+    if script() {
+        return if flussab::verif_q::take_bytes(b" ") { Res(Ok(())) } else { Fallthrough };
+    }
     if consume() {
+        unsafe {
+            SPACES_OK += 1;
+        }
         Res(Ok(()))
     } else {
         Fallthrough
@@ -110,7 +206,13 @@ pub fn space(_input: &mut LineReader) -> Parsed<(), ParseError> {
 
 pub fn required_space(_input: &mut LineReader) -> Result<(), ParseError> {
     tick();
+    if script() {
+        return if flussab::verif_q::take_bytes(b" ") { Ok(()) } else { Err(any_err()) };
+    }
     if consume() {
+        unsafe {
+            SPACES_OK += 1;
+        }
         Ok(())
     } else {
         Err(any_err())
@@ -119,6 +221,16 @@ pub fn required_space(_input: &mut LineReader) -> Result<(), ParseError> {
 
 pub fn newline(_input: &mut LineReader) -> Parsed<(), ParseError> {
     tick();
+    if script() {
+        return if flussab::verif_q::take_bytes(b"\n") {
+            unsafe {
+                NEWLINES_OK += 1;
+            }
+            Res(Ok(()))
+        } else {
+            Fallthrough
+        };
+    }
     if consume() {
         unsafe {
             NEWLINES_OK += 1;
@@ -131,6 +243,16 @@ pub fn newline(_input: &mut LineReader) -> Parsed<(), ParseError> {
 
 pub fn required_newline(_input: &mut LineReader) -> Result<(), ParseError> {
     tick();
+    if script() {
+        return if flussab::verif_q::take_bytes(b"\n") {
+            unsafe {
+                NEWLINES_OK += 1;
+            }
+            Ok(())
+        } else {
+            Err(any_err())
+        };
+    }
     if consume() {
         unsafe {
             NEWLINES_OK += 1;
@@ -143,12 +265,27 @@ pub fn required_newline(_input: &mut LineReader) -> Result<(), ParseError> {
 
 pub fn required_newline_or_space(_input: &mut LineReader) -> Result<bool, ParseError> {
     tick();
+    if script() {
+        if flussab::verif_q::take_bytes(b" ") {
+            return Ok(true);
+        }
+        if flussab::verif_q::take_bytes(b"\n") {
+            unsafe {
+                NEWLINES_OK += 1;
+            }
+            return Ok(false);
+        }
+        return Err(any_err());
+    }
     if consume() {
         let space: bool = kani::any();
         if !space {
             unsafe {
                 NEWLINES_OK += 1;
             }
+        }
+        unsafe {
+            NLS_SPACE = space;
         }
         Ok(space)
     } else {
@@ -167,7 +304,7 @@ fn limited(limit: usize) -> Result<usize, ParseError> {
 
 pub fn header_field(_input: &mut LineReader, _name: &str, limit: usize, hard: bool) -> Result<usize, ParseError> {
     tick();
-    let r = limited(limit);
+    let r = if script() { s_limited(limit) } else { limited(limit) };
     unsafe {
         if HF_N < MAXREC {
             HF_LIMIT[HF_N] = limit;
@@ -183,9 +320,32 @@ pub fn header_field(_input: &mut LineReader, _name: &str, limit: usize, hard: bo
 
 pub fn lit(_input: &mut LineReader, _name: &str, limit: usize, assigning: bool) -> Result<usize, ParseError> {
     tick();
-    let r = limited(limit)?;
-    if assigning {
-        kani::assume(r != 0 && r % 2 == 0);
+    unsafe {
+        if LIT_N < MAXREC {
+            LIT_LIMIT[LIT_N] = limit;
+            LIT_ASSIGN[LIT_N] = assigning;
+        }
+        LIT_N += 1;
+    }
+    let r = if script() {
+        let r = s_limited(limit)?;
+        // contract (limited_lit): an assigning literal is even and non-zero, else rejected
+        if assigning && (r == 0 || r % 2 != 0) {
+            return Err(any_err());
+        }
+        r
+    } else {
+        let r = limited(limit)?;
+        if assigning {
+            kani::assume(r != 0 && r % 2 == 0);
+        }
+        r
+    };
+    unsafe {
+        if LIT_N <= MAXREC {
+            LIT_RET[LIT_N - 1] = r;
+        }
+        LIT_OK += 1;
     }
     Ok(r)
 }
@@ -196,7 +356,7 @@ pub fn symbol_index(_input: &mut LineReader, _name: &str, limit: usize) -> Resul
         SI_N += 1;
         SI_LIMIT = limit;
     }
-    let r = limited(limit)?;
+    let r = if script() { s_limited(limit)? } else { limited(limit)? };
     unsafe {
         SI_RET = r;
     }
@@ -205,13 +365,40 @@ pub fn symbol_index(_input: &mut LineReader, _name: &str, limit: usize) -> Resul
 
 pub fn delta_code(_input: &mut LineReader, code: usize, _t: &str, _r: &str) -> Result<usize, ParseError> {
     tick();
-    limited(code)
+    let r = if script() {
+        // contract (delta_code_token): the 7-bit encoded delta must not exceed the reference code
+        match flussab::verif_q::take_bin() {
+            Some(d) if d as u128 <= code as u128 => code - d as usize,
+            _ => return Err(any_err()),
+        }
+    } else {
+        limited(code)?
+    };
+    unsafe {
+        if DC_N < 2 {
+            DC_CODE[DC_N] = code;
+            DC_RET[DC_N] = r;
+        }
+        DC_N += 1;
+    }
+    Ok(r)
 }
 
 static EMPTY: &str = "";
 
 pub fn remaining_line_content<'a>(_input: &'a mut LineReader) -> Result<&'a str, ParseError> {
     tick();
+    if script() {
+        return match q_text_until_newline(false) {
+            Some(t) => {
+                unsafe {
+                    NEWLINES_OK += 1;
+                }
+                Ok(t)
+            }
+            None => Err(any_err()),
+        };
+    }
     if consume() {
         unsafe {
             NEWLINES_OK += 1;
@@ -224,6 +411,15 @@ pub fn remaining_line_content<'a>(_input: &'a mut LineReader) -> Result<&'a str,
 
 pub fn remaining_file_content<'a>(_input: &'a mut LineReader) -> Result<&'a str, ParseError> {
     tick();
+    if script() {
+        if flussab::verif_q::len() == 0 {
+            return Ok(EMPTY);
+        }
+        return match q_text_until_newline(true) {
+            Some(t) => Ok(t),
+            None => Err(any_err()),
+        };
+    }
     unsafe {
         if IO_FAILED {
             return Err(any_err());
@@ -238,6 +434,16 @@ pub fn remaining_file_content<'a>(_input: &'a mut LineReader) -> Result<&'a str,
 
 pub fn eof(_input: &mut LineReader) -> Parsed<(), ParseError> {
     tick();
+    if script() {
+        return if flussab::verif_q::len() == 0 {
+            unsafe {
+                EOF_OK += 1;
+            }
+            Res(Ok(()))
+        } else {
+            Fallthrough
+        };
+    }
     unsafe {
         if AT_END && !IO_FAILED {
             EOF_OK += 1;
